@@ -185,7 +185,7 @@ def _variants():
     V.append(('get_token', dict(brackets_are_chars=False),
               lambda lw, pos: lw.get_token(pos, brackets_are_chars=False),
               lambda lw, pos: v3_get_token(lw, pos, [('[', ']')], True)))
-    stops = [dict(), dict(brace='}'), dict(brace=']'), dict(brace=('<', '>')), dict(env='itemize'), dict(math='$'), dict(math='\\)')]
+    stops = [dict(), dict(brace='}'), dict(brace=']'), dict(brace=('<', '>')), dict(brace=('[', ']')), dict(brace='{}'), dict(env='itemize'), dict(math='$'), dict(math='\\)')]
     for stp in stops:
         for maxn in (None, 1, 2):
             def leg(lw, pos, stp=stp, maxn=maxn):
